@@ -58,6 +58,7 @@ type REntry struct {
 	PartName string  `json:"pn,omitempty"`
 	Rows     []int64 `json:"rows,omitempty"`
 	Tag      int64   `json:"tag,omitempty"`
+	Op       *WDEvent `json:"op,omitempty"` // Kind "op": an operation message on the replicate channel
 }
 
 type ROp struct {
